@@ -1006,7 +1006,6 @@ def _check_decoupled(ctx, case, name, alg, rec, fcalls, pcalls, adds):
     kind = DECOUPLED[name]
     snap = rec["snap"]
     act = snap["active"]
-    q = case["batch"]
     m = alg.m
     costs = None if alg.costs is None else np.asarray(alg.costs, dtype=float)
     if kind == "thompson":
@@ -1052,7 +1051,6 @@ def _check_decoupled_tail(ctx, case, name, alg, rec, fcalls, pcalls, adds, rows,
     kind = DECOUPLED[name]
     snap = rec["snap"]
     act = snap["active"]
-    q = case["batch"]
     m = alg.m
     costs = None if alg.costs is None else np.asarray(alg.costs, dtype=float)
     if len(pcalls) != 1:
